@@ -55,14 +55,6 @@ func changed(oldR, newR *c03.Rendered) map[string][2]string {
 	return out
 }
 
-func ruleOf(anns []bufx.Annotation) string {
-	set := map[string]bool{}
-	for _, a := range anns {
-		set[a.Type] = true
-	}
-	return strings.Join(bufx.SortedKeys(set), "+")
-}
-
 type runner struct {
 	r   *evid.Run
 	eng *c03.Engine
@@ -90,9 +82,15 @@ func (x *runner) silent(kind, opSig, pair string, oldR, newR *c03.Rendered, oldI
 				caseT{Kind: kind, Pair: pair, Config: c.String(), Changed: changed(oldR, newR)})
 			continue
 		}
-		if len(anns) > 0 {
-			x.r.Violate("compatible-reported/"+kind+"/"+opSig+"/"+ruleOf(anns),
-				fmt.Sprintf("%s %s under %s: %d annotation(s) for a compatible change, first: %s %q", kind, pair, c, len(anns), anns[0].Type, anns[0].Message),
+		// one signature per rule that spoke up (the chain / style that exposed it is in the case, not in the signature)
+		seen := map[string]bool{}
+		for _, a := range anns {
+			if seen[a.Type] {
+				continue
+			}
+			seen[a.Type] = true
+			x.r.Violate("compatible-reported/"+kind+"/"+a.Type,
+				fmt.Sprintf("%s %s under %s: %d annotation(s) for a compatible change (edit: %s), first of this rule: %q", kind, pair, c, len(anns), opSig, a.Message),
 				caseT{Kind: kind, Pair: pair, Config: c.String(), Annotations: anns, Changed: changed(oldR, newR)})
 		}
 	}
@@ -140,9 +138,16 @@ func (x *runner) hierarchy(kind, opSig, pair string, oldR, newR *c03.Rendered, o
 				x.add("hierarchy_antecedent_true_"+strict, 1)
 			}
 			if clean[strict] && !clean[lax] {
-				x.r.Violate("hierarchy/"+v+"/"+strict+"-clean-but-"+lax+"-reports/"+ruleOf(byCat[lax]),
-					fmt.Sprintf("%s %s, %s: clean under %s but %s reports %d annotation(s), first: %s %q", kind, pair, v, strict, lax, len(byCat[lax]), byCat[lax][0].Type, byCat[lax][0].Message),
-					caseT{Kind: kind, Pair: pair, Config: v + "/" + lax, Annotations: byCat[lax], Clean: clean, Changed: changed(oldR, newR)})
+				seen := map[string]bool{}
+				for _, a := range byCat[lax] {
+					if seen[a.Type] {
+						continue
+					}
+					seen[a.Type] = true
+					x.r.Violate("hierarchy/"+v+"/"+strict+"-clean-but-"+lax+"-reports/"+a.Type,
+						fmt.Sprintf("%s %s (%s), %s: clean under %s but %s reports %d annotation(s), first of this rule: %q", kind, pair, opSig, v, strict, lax, len(byCat[lax]), a.Message),
+						caseT{Kind: kind, Pair: pair, Config: v + "/" + lax, Annotations: byCat[lax], Clean: clean, Changed: changed(oldR, newR)})
+				}
 			}
 		}
 	}
@@ -173,7 +178,7 @@ func run(r *evid.Run) {
 		maxChain = 3
 	}
 	r.Rule(fmt.Sprintf("(a) silent: per base schema in {proto2, proto3, edition 2023}: identity; every ordered pair of %d cosmetic renderings (comments, indentation, blank lines, import order, token spacing); every chain of length <= 2 over the additive operators at their canonical site (max length here: %d; length 3 over the 12 core operators; thorough: single steps also at every site), each S_i compared with every earlier S_j; configs FILE/PACKAGE/WIRE_JSON/WIRE and their union x v1beta1/v1/v2 (quick: intermediate pairs only under the unions). "+
-		"(b) hierarchy: every (old,new) pair of the C03 catalogue (quick: the instances at the top / file positions without surrounding, all versions, field-type table v2; thorough: every position, also with the index-shifting surrounding) and every ordered pair of edited schemas of a base (quick: one per distinct expected-rule set, <=28, v2; thorough: one per operator+variant, <=60, all versions); "+
+		"(b) hierarchy: every (old,new) pair of the C03 catalogue (quick: without surrounding; all versions at the top / file positions, v2 at the nested / second-file positions, field-type table at the top position under v2; thorough: every position and version, also with the index-shifting surrounding) and every ordered pair of edited schemas of a base (quick: one per distinct expected-rule set, <=28, v2; thorough: one per operator+variant, <=60, all versions); "+
 		"distinct key = kind/pair id; a pair is non-trivial when old and new differ", len(styles), maxChain))
 	r.Assume("'additive' is the property's list: new files, messages, enums, services, RPCs, oneofs (with new fields), reserved ranges/names, enum values and non-required fields with fresh numbers and names, new imports; extensions with fresh numbers are treated as non-required fields")
 	r.Assume("the additive operators never reuse a number or name of the base (numbers >= 700, names containing 'added')")
@@ -378,8 +383,8 @@ func run(r *evid.Run) {
 		for i := range instances {
 			in := &instances[i]
 			shallow := in.Pos == "top" || in.Pos == "file"
-			if !phases["catalogue"] || (!full && !shallow) {
-				continue // the verdict pattern of an edit does not depend on its nesting position; thorough runs them all
+			if !phases["catalogue"] || (!full && !shallow && in.Op == "field-type") {
+				continue // quick: the field-type table only at the top position
 			}
 			items = append(items, item{in, c03.SurroundNone})
 			if full && in.Op != "field-type" {
@@ -394,7 +399,7 @@ func run(r *evid.Run) {
 				return
 			}
 			versions := c03.Versions
-			if !full && it.in.Op == "field-type" {
+			if !full && (it.in.Op == "field-type" || !(it.in.Pos == "top" || it.in.Pos == "file")) {
 				versions = []string{"v2"}
 			}
 			pair := it.in.ID() + " [" + c03.SurroundNames[it.mode] + "]"
